@@ -1,0 +1,22 @@
+//go:build verif
+
+package client
+
+import "reflect"
+
+// Verification hooks, compiled only with the build tag "verif" (see /verif/DESIGN.md section 9).
+
+// VerifLockHook, when set, is told - on the goroutine concerned - that a lock of the session table ("sessions"), of a
+// session ("session") or of the ticket cache ("cache") is about to be requested (ev "want", mode "r" or "w") or released
+// (ev "rel"), and that an exchange with a KDC begins (ev "kdc"). obj identifies the lock. nil means nothing is recorded.
+var VerifLockHook func(ev, class, mode string, obj uintptr)
+
+func verifLock(ev, class, mode string, obj interface{}) {
+	if f := VerifLockHook; f != nil {
+		var p uintptr
+		if obj != nil {
+			p = reflect.ValueOf(obj).Pointer()
+		}
+		f(ev, class, mode, p)
+	}
+}
